@@ -1,2 +1,737 @@
 // Package c18: monitor for property C18 (see DESIGN.md section 2).
+//
+// Access control: every RPC served by the gRPC server (method list taken at run
+// time from grpc.Server.GetServiceInfo) is called for every role x database
+// selection x session state; around every call a digest of every database and
+// of the user table is taken with a sysadmin handle and the oracle decides from
+// the observed status and the observed state change.
 package c18
+
+import (
+	"bytes"
+	"encoding/json"
+	"fmt"
+	"os"
+	"path/filepath"
+	"runtime/pprof"
+	"sort"
+	"strings"
+	"time"
+
+	"github.com/codenotary/immudb/pkg/api/schema"
+	"google.golang.org/grpc/status"
+	"google.golang.org/protobuf/types/known/emptypb"
+
+	"verifharness/internal/fw"
+)
+
+func init() {
+	fw.RegisterMonitor("C18", "exploration", Run)
+	fw.RegisterIsolated("c18-case", runCase)
+}
+
+type caseSpec struct {
+	Role    int    `json:"role"`
+	Sel     string `json:"sel"`   // own | other | system | none
+	State   string `json:"state"` // see states
+	Content int64  `json:"content_seed"`
+	Mode    string `json:"mode,omitempty"` // "" matrix | "concurrent"
+	Only    string `json:"only,omitempty"` // debugging: substring of the method name
+}
+
+var sels = []string{"own", "other", "system", "none"}
+
+// the six session states of the matrix
+var states = []string{"nocreds", "token", "session", "expired", "deactivated", "permchanged"}
+
+// extra refused states (own database only): the same invalidations with session
+// authentication, and with the user logged in twice before the invalidation
+var extraStates = []string{"deactivated-session", "permchanged-session", "deactivated-2logins", "permchanged-2logins"}
+
+func Run(c *fw.Ctx) {
+	c.Rule = "every RPC served (list from the gRPC server at run time) x role {none,R,RW,Admin,SysAdmin on db1} x database selection " +
+		"{own db1, other db2, systemdb, none} x session state {no credentials, token, session, session removed, user deactivated, permission revoked after login}; " +
+		"digest (CurrentState id+hash, settings, loaded flag of every database; user table) before/after every call: a database changes only if the caller holds >= RW on it " +
+		"(settings/users: admin), systemdb contents change only through user/database administration, refused sessions are not served and change nothing, " +
+		"responses carry no planted marker / state hash of a database the caller cannot read; distinct = (class, role, selection, state, outcome) of cells whose builder succeeded for the permitted role"
+	c.Assume("the digest is taken through sysadmin sessions of the same server (CurrentState, DatabaseListV2, ListUsers)")
+	c.Assume("classes (write/read/admin/session/open/public/filtered) are assigned in the harness from the meaning of each RPC, not from pkg/auth")
+	c.Assume("an expired session is a session removed through sessions.Manager.DeleteSession (no clock)")
+
+	var cases [][]byte
+	add := func(cs caseSpec) {
+		b, _ := json.Marshal(cs)
+		cases = append(cases, b)
+	}
+	if c.ReplayPath != "" {
+		if b, err := os.ReadFile(filepath.Join(c.ReplayPath, "case.json")); err == nil {
+			cases = append(cases, b)
+		}
+	}
+	if len(cases) == 0 {
+		only := os.Getenv("VERIF_C18_ONLY")
+		seeds := []int64{c.Seed}
+		if c.Thorough() {
+			seeds = append(seeds, c.Seed+1000, c.Seed+2000)
+		}
+		for _, cseed := range seeds {
+			for role := roleNone; role <= roleSys; role++ {
+				for _, sel := range sels {
+					for _, st := range states {
+						if role == roleSys && (st == "deactivated" || st == "permchanged") {
+							continue // the sysadmin can be neither deactivated nor re-permissioned
+						}
+						add(caseSpec{Role: role, Sel: sel, State: st, Content: cseed, Only: only})
+					}
+				}
+				if role != roleSys {
+					for _, st := range extraStates {
+						add(caseSpec{Role: role, Sel: "own", State: st, Content: cseed, Only: only})
+					}
+				}
+			}
+		}
+		if c.Thorough() {
+			for role := roleR; role <= roleAdmin; role++ {
+				for i := 0; i < 3; i++ {
+					add(caseSpec{Role: role, Sel: "own", State: "token", Content: c.Seed + int64(i), Mode: "concurrent"})
+				}
+			}
+		}
+		if f := os.Getenv("VERIF_C18_CASES"); f != "" { // debugging: "role/sel/state" substrings, comma separated
+			var kept [][]byte
+			for _, b := range cases {
+				var cs caseSpec
+				json.Unmarshal(b, &cs)
+				key := fmt.Sprintf("%s/%s/%s/%s", roleNames[cs.Role], cs.Sel, cs.State, cs.Mode)
+				for _, want := range strings.Split(f, ",") {
+					if strings.Contains(key, want) {
+						kept = append(kept, b)
+						break
+					}
+				}
+			}
+			cases = kept
+		}
+	}
+	c.Set("cases", len(cases))
+	c.RunIsolated("c18-case", cases, fw.CasesOpts{Workers: 14, CaseTimout: 10 * time.Minute})
+}
+
+// ------------------------------------------------------------------ one case
+
+// builders validated by the permitted-role pass of this (child) process
+var procValid map[string]bool
+
+type caseRun struct {
+	c      *fw.Ctx
+	cs     caseSpec
+	e      *env
+	specs  map[string]*spec
+	valid  map[string]bool      // builder shown to succeed for the permitted role on this server
+	served map[string]map[string][]string // refused state -> method -> what was observed (served / changed / leaked)
+	trace  []map[string]any     // last cells (witness)
+	sigs   map[string]bool
+	cur    *held // credential shared by consecutive cells of the same (role, selection, state)
+}
+
+// held is an established (and, per state, invalidated) credential.
+type held struct {
+	key     string
+	x       *cx // carries role / user / state / cred / logins of the establishment
+	steps   []string
+	revoked bool
+	dirty   bool
+}
+
+func (r *caseRun) hold(x *cx) *held {
+	key := fmt.Sprintf("%d/%s/%s", x.role, x.sel, x.state)
+	if r.cur != nil && (r.cur.key != key || r.cur.dirty) {
+		r.release(r.cur.x)
+		r.cur = nil
+	}
+	if r.cur == nil {
+		hx := &cx{e: r.e, role: x.role, user: x.user, sel: x.sel, state: x.state}
+		steps, revoked := r.establish(hx)
+		r.cur = &held{key: key, x: hx, steps: steps, revoked: revoked}
+	}
+	x.cred = r.cur.x.cred
+	return r.cur
+}
+
+func (r *caseRun) dropHeld() {
+	if r.cur != nil {
+		r.release(r.cur.x)
+		r.cur = nil
+	}
+}
+
+func runCase(c *fw.Ctx, data []byte) {
+	var cs caseSpec
+	if err := json.Unmarshal(data, &cs); err != nil {
+		c.Inconclusive("bad case: " + err.Error())
+		return
+	}
+	if pf := os.Getenv("VERIF_C18_PROF"); pf != "" {
+		f, _ := os.Create(pf)
+		pprof.StartCPUProfile(f)
+		defer pprof.StopCPUProfile()
+	}
+	dir := filepath.Join(c.Scratch(), "srv")
+	os.MkdirAll(dir, 0o755)
+	e, err := startEnv(dir)
+	if err != nil {
+		c.Inconclusive("server start: " + err.Error())
+		return
+	}
+	defer e.stop()
+	if err := e.setup(); err != nil {
+		c.Inconclusive("server setup: " + err.Error())
+		return
+	}
+	r := &caseRun{c: c, cs: cs, e: e, specs: buildSpecs(), valid: map[string]bool{}, served: map[string]map[string][]string{}, sigs: map[string]bool{}}
+	if cs.Mode == "concurrent" {
+		r.concurrent(data)
+		return
+	}
+
+	methods := append([]methodInfo(nil), e.methods...)
+	sort.SliceStable(methods, func(i, j int) bool {
+		li, lj := 0, 0
+		if s := r.specs[methods[i].Full]; s != nil {
+			li = s.late
+		}
+		if s := r.specs[methods[j].Full]; s != nil {
+			lj = s.late
+		}
+		return li < lj
+	})
+	if cs.Only != "" {
+		var kept []methodInfo
+		for _, mi := range methods {
+			if strings.Contains(mi.Full, cs.Only) {
+				kept = append(kept, mi)
+			}
+		}
+		methods = kept
+	}
+
+	uncovered := []string{}
+	for _, mi := range e.methods {
+		if r.specs[mi.Full] == nil {
+			uncovered = append(uncovered, mi.Full)
+		}
+	}
+	stale := []string{}
+	served := map[string]bool{}
+	for _, mi := range e.methods {
+		served[mi.Full] = true
+	}
+	for full := range r.specs {
+		if !served[full] {
+			stale = append(stale, full)
+		}
+	}
+	sort.Strings(stale)
+	c.Set("methods_discovered", len(e.methods))
+	c.Set("methods_with_builder", len(e.methods)-len(uncovered))
+	c.Set("uncovered_methods", uncovered)
+	c.Set("builders_without_served_method", stale)
+	c.Set("ignored_services", e.ignored)
+
+	// 1. permitted role: every builder must succeed for the role that is meant to be allowed.
+	// Done on the first server of every child process (about one case in ten); the later cases of
+	// the same process reuse the result (same binary, same builders, identically built server).
+	if procValid != nil && cs.Only == "" {
+		r.valid = procValid
+	}
+	notValidated := map[string]any{}
+	type vcell struct {
+		mi methodInfo
+		st string
+	}
+	var vcells []vcell
+	for i, mi := range methods {
+		sp := r.specs[mi.Full]
+		if sp == nil || sp.okRole < 0 {
+			continue
+		}
+		st := "token"
+		if sp.needSess || (i%2 == 1 && !sp.needTok) {
+			st = "session"
+		}
+		vcells = append(vcells, vcell{mi, st})
+	}
+	sort.SliceStable(vcells, func(i, j int) bool { // keeps the late ones last, groups equal credentials
+		a, b := r.specs[vcells[i].mi.Full], r.specs[vcells[j].mi.Full]
+		if a.late != b.late {
+			return a.late < b.late
+		}
+		if a.okRole != b.okRole {
+			return a.okRole < b.okRole
+		}
+		return vcells[i].st < vcells[j].st
+	})
+	if procValid != nil && cs.Only == "" {
+		vcells = nil
+	}
+	for _, vc := range vcells {
+		mi, st := vc.mi, vc.st
+		sp := r.specs[mi.Full]
+		ok := r.cell(mi, sp, sp.okRole, "own", st, true)
+		r.valid[mi.Full] = ok
+		if ok {
+			c.Count("permitted_success", 1)
+		} else {
+			notValidated[shortName(mi.Full)] = 1.0
+		}
+	}
+	if len(notValidated) > 0 {
+		c.Set("permitted_role_failed", notValidated)
+	}
+	if procValid == nil && cs.Only == "" {
+		procValid = r.valid
+	}
+
+	// 2. the row of the matrix
+	for _, mi := range methods {
+		r.cell(mi, r.specs[mi.Full], cs.Role, cs.Sel, cs.State, false)
+	}
+	r.dropHeld()
+
+	// refused sessions that were served: one signature per method, or one per state when the
+	// whole session layer let the state through
+	for st, byMethod := range r.served {
+		ms := make([]string, 0, len(byMethod))
+		for m := range byMethod {
+			ms = append(ms, m)
+		}
+		sort.Strings(ms)
+		if len(ms) > 6 {
+			parts := []string{}
+			for _, m := range ms {
+				parts = append(parts, m+"("+strings.Join(dedup(byMethod[m]), ",")+")")
+			}
+			r.violate("refused-session-served/"+st+"/*", fmt.Sprintf("role %s, selection %s: %d methods were served for a %s session: %s",
+				roleNames[cs.Role], cs.Sel, len(ms), st, strings.Join(parts, " ")), data)
+			continue
+		}
+		for _, m := range ms {
+			r.violate("refused-session-served/"+st+"/"+m, fmt.Sprintf("role %s, selection %s: %s for a %s session: %s",
+				roleNames[cs.Role], cs.Sel, m, st, strings.Join(dedup(byMethod[m]), ", ")), data)
+		}
+	}
+}
+
+func dedup(in []string) []string {
+	seen := map[string]bool{}
+	var out []string
+	for _, s := range in {
+		if !seen[s] {
+			seen[s] = true
+			out = append(out, s)
+		}
+	}
+	return out
+}
+
+func (r *caseRun) noteRefused(state, method, what string) {
+	if r.served[state] == nil {
+		r.served[state] = map[string][]string{}
+	}
+	r.served[state][method] = append(r.served[state][method], what)
+}
+
+func shortName(full string) string {
+	p := strings.Split(strings.TrimPrefix(full, "/"), "/")
+	if len(p) != 2 {
+		return full
+	}
+	svc := p[0][strings.LastIndex(p[0], ".")+1:]
+	if svc == "ImmuService" {
+		return p[1]
+	}
+	return svc + "." + p[1]
+}
+
+func (r *caseRun) violate(sig, detail string, caseData []byte) {
+	if r.sigs[sig] {
+		r.c.Count("violating_cells", 1)
+		return
+	}
+	r.sigs[sig] = true
+	tr, _ := json.MarshalIndent(r.trace, "", " ")
+	r.c.Violation(sig, detail, map[string][]byte{"case.json": caseData, "trace.json": tr})
+}
+
+func homeOf(role int) string {
+	switch role {
+	case roleNone:
+		return "db3"
+	case roleSys:
+		return defDBn
+	}
+	return "db1"
+}
+
+func selDB(sel string) string {
+	switch sel {
+	case "own":
+		return "db1"
+	case "other":
+		return "db2"
+	case "system":
+		return sysDBn
+	}
+	return ""
+}
+
+func refusedState(st string) bool { return st != "token" && st != "session" }
+
+// permission of the cell's user on db, from the harness's own bookkeeping
+func permOf(role int, revoked bool, db string) int {
+	if role == roleSys {
+		return pSys
+	}
+	if revoked {
+		return pNone
+	}
+	switch {
+	case db == "db1":
+		return []int{pNone, pR, pRW, pAdmin}[role]
+	case db == "db3" && role == roleNone:
+		return pRW
+	}
+	return pNone
+}
+
+func origPermission(role int) uint32 {
+	switch role {
+	case roleNone, roleRW:
+		return 2
+	case roleR:
+		return 1
+	}
+	return 254
+}
+
+// establish logs the cell's user in, selects the database and then invalidates the credential as the state says.
+func (r *caseRun) establish(x *cx) (steps []string, revoked bool) {
+	e := r.e
+	note := func(s string, err error) {
+		if err != nil {
+			steps = append(steps, s+": "+status.Code(err).String()+" "+trunc(err.Error(), 80))
+		} else {
+			steps = append(steps, s+": ok")
+		}
+	}
+	st := x.state
+	useSession := st == "session" || st == "expired" || strings.HasSuffix(st, "-session")
+	home, want := homeOf(x.role), selDB(x.sel)
+	pw := pwOf(x.role)
+	switch {
+	case st == "nocreds":
+		x.cred = cred{kind: "none"}
+		return
+	case useSession:
+		rs, err := e.ic.OpenSession(bg(), &schema.OpenSessionRequest{Username: []byte(x.user), Password: []byte(pw), DatabaseName: home})
+		note("OpenSession("+home+")", err)
+		if err != nil {
+			x.cred = cred{kind: "none"}
+			return
+		}
+		x.cred = cred{kind: "session", sessID: rs.SessionID, ok: true}
+		if want != "" && want != home {
+			_, err := e.ic.UseDatabase(x.ctx(), &schema.Database{DatabaseName: want})
+			note("UseDatabase("+want+")", err)
+		}
+	default:
+		n := 1
+		if strings.HasSuffix(st, "-2logins") {
+			n = 2
+		}
+		for i := 0; i < n; i++ {
+			rl, err := e.ic.Login(bg(), &schema.LoginRequest{User: []byte(x.user), Password: []byte(pw)})
+			note("Login", err)
+			if err != nil {
+				x.cred = cred{kind: "none"}
+				return
+			}
+			if i == 1 {
+				x.logins = append(x.logins, rl.Token) // the second login is only logged out at the end
+				break
+			}
+			x.cred = cred{kind: "token", token: rl.Token, ok: true}
+		}
+		if want != "" {
+			for _, db := range []string{home, want} {
+				ru, err := e.ic.UseDatabase(x.ctx(), &schema.Database{DatabaseName: db})
+				note("UseDatabase("+db+")", err)
+				if err == nil {
+					x.cred.token = ru.Token
+				}
+				if home == want {
+					break
+				}
+			}
+		}
+	}
+	sys := e.saCtx(defDBn)
+	switch {
+	case st == "expired":
+		note("sessions.Manager.DeleteSession", e.srv.SessManager.DeleteSession(x.cred.sessID))
+	case strings.HasPrefix(st, "deactivated"):
+		_, err := e.ic.SetActiveUser(sys, &schema.SetActiveUserRequest{Username: x.user, Active: false})
+		note("sysadmin SetActiveUser(false)", err)
+	case strings.HasPrefix(st, "permchanged"):
+		_, err := e.ic.ChangePermission(sys, &schema.ChangePermissionRequest{Action: schema.PermissionAction_REVOKE, Username: x.user, Database: home, Permission: origPermission(x.role)})
+		note("sysadmin ChangePermission(REVOKE "+home+")", err)
+		revoked = err == nil
+	}
+	return
+}
+
+func (r *caseRun) release(x *cx) {
+	e := r.e
+	for _, id := range x.opened {
+		e.ic.CloseSession(sessCtx(id), &emptypb.Empty{})
+	}
+	switch x.cred.kind {
+	case "token":
+		e.ic.Logout(tokCtx(x.cred.token), &emptypb.Empty{})
+	case "session":
+		e.ic.CloseSession(sessCtx(x.cred.sessID), &emptypb.Empty{})
+	}
+	for _, t := range x.logins {
+		e.ic.Logout(tokCtx(t), &emptypb.Empty{})
+	}
+	sys := e.saCtx(defDBn)
+	switch {
+	case strings.HasPrefix(x.state, "deactivated"):
+		e.ic.SetActiveUser(sys, &schema.SetActiveUserRequest{Username: x.user, Active: true})
+	case strings.HasPrefix(x.state, "permchanged"):
+		e.ic.ChangePermission(sys, &schema.ChangePermissionRequest{Action: schema.PermissionAction_GRANT, Username: x.user, Database: homeOf(x.role), Permission: origPermission(x.role)})
+	}
+}
+
+func trunc(s string, n int) string {
+	if len(s) > n {
+		return s[:n] + "..."
+	}
+	return s
+}
+
+// cell runs one call under test and applies the oracle. It returns whether the call succeeded.
+func (r *caseRun) cell(mi methodInfo, sp *spec, role int, sel, state string, permitted bool) bool {
+	e, c := r.e, r.c
+	name := shortName(mi.Full)
+	x := &cx{e: e, role: role, user: roleUser[role], sel: sel, state: state,
+		rnd: fw.NewRand(r.cs.Content, fmt.Sprintf("c18/%s/%d/%s/%s", mi.Full, role, sel, state))}
+	x.target = selDB(sel)
+	if x.target == "" {
+		x.target = "db1"
+	}
+	class := clUnknown
+	if sp != nil {
+		class = sp.class
+		if sp.prep != nil {
+			if sp.userPrep {
+				r.dropHeld() // the prep changes the user's permissions, which ends its logins
+			}
+			sp.prep(x)
+		}
+	}
+	t0 := time.Now()
+	h := r.hold(x)
+	steps, revoked := h.steps, h.revoked
+	t1 := time.Now()
+	d0 := e.digest()
+	t2 := time.Now()
+	var err error
+	if sp != nil {
+		err = sp.run(x)
+	} else {
+		err = x.zeroCall(mi)
+	}
+	t3 := time.Now()
+	d1 := e.digest()
+	changes := diffDigests(d0, d1)
+	if dbg := os.Getenv("VERIF_C18_DEBUG"); dbg != "" {
+		f, _ := os.OpenFile(dbg, os.O_CREATE|os.O_APPEND|os.O_WRONLY, 0o644)
+		defer f.Close()
+		fmt.Fprintf(f, "%-40s %-8s %-6s %-12s establish=%v digest=%v run=%v err=%v changes=%v steps=%v\n", shortName(mi.Full), roleNames[role], sel, state, t1.Sub(t0), t2.Sub(t1), t3.Sub(t2), err, changes, steps)
+	}
+	x.txid = ""
+	// sessions / logins opened by the call itself
+	for _, id := range x.opened {
+		e.ic.CloseSession(sessCtx(id), &emptypb.Empty{})
+	}
+	for _, t := range x.logins {
+		e.ic.Logout(tokCtx(t), &emptypb.Empty{})
+	}
+	// the credential is re-established when the call may have disturbed it
+	switch {
+	case refusedState(state):
+		h.dirty = err == nil && class != clPublic
+	default:
+		h.dirty = sp == nil || sp.needSess || class == clSession || class == clOpen || class == clAdmin || !x.cred.ok
+	}
+	if sp != nil && sp.cleanup != nil {
+		r.dropHeld() // cleanups may unload / restore databases the credential is bound to
+	}
+	if sp != nil && sp.cleanup != nil {
+		sp.cleanup(x)
+	}
+	if d0.Err != "" || d1.Err != "" {
+		c.Inconclusive(fmt.Sprintf("%s: digest unavailable: %s %s", name, d0.Err, d1.Err))
+		return err == nil
+	}
+	c.Eval(1)
+	c.Count("cells", 1)
+
+	outcome := "allowed"
+	if err != nil {
+		outcome = "denied:" + status.Code(err).String()
+	}
+	chs := []string{}
+	for _, ch := range changes {
+		chs = append(chs, ch.Kind+":"+ch.DB)
+	}
+	rec := map[string]any{"method": name, "class": class, "role": roleNames[role], "selection": sel, "state": state, "permitted_pass": permitted,
+		"setup": steps, "outcome": outcome, "changes": changes}
+	if err != nil {
+		rec["error"] = trunc(err.Error(), 200)
+	}
+	r.trace = append(r.trace, rec)
+	if len(r.trace) > 12 {
+		r.trace = r.trace[len(r.trace)-12:]
+	}
+	caseData, _ := json.Marshal(r.cs)
+	where := fmt.Sprintf("%s by role %s (user %s), selection %s, state %s [%s]: %s", name, roleNames[role], x.user, sel, state, strings.Join(steps, "; "), outcome)
+	if err != nil {
+		where += " (" + trunc(err.Error(), 120) + ")"
+	}
+
+	refused := refusedState(state) || !x.cred.ok
+	stName := state
+	if !refusedState(state) && !x.cred.ok {
+		stName = "login-refused"
+	}
+	perm := func(db string) int {
+		if p, ok := x.extraPerm[db]; ok && !revoked {
+			return p
+		}
+		return permOf(role, revoked, db)
+	}
+
+	// ---- rule 1: observed state changes
+	for _, ch := range changes {
+		desc := fmt.Sprintf("%s -> %s %s (%s)", where, ch.Kind, ch.DB, ch.What)
+		if refused {
+			r.noteRefused(stName, name, "changed "+ch.Kind+" of "+ch.DB)
+			continue
+		}
+		if ch.Kind == "data" && ch.DB == sysDBn && class != clAdmin {
+			// contents of the system database changed through something that is not user / database administration
+			r.violate("systemdb-written/"+name, desc, caseData)
+			continue
+		}
+		okc := false
+		switch ch.Kind {
+		case "data":
+			if ch.DB == sysDBn {
+				okc = role >= roleAdmin // user table / database catalogue
+			} else {
+				okc = perm(ch.DB) >= pRW
+			}
+		case "settings", "loaded":
+			okc = perm(ch.DB) >= pAdmin
+		case "dblist":
+			okc = role >= roleAdmin
+		case "userperm", "userlist":
+			okc = role == roleSys || (ch.DB != "" && perm(ch.DB) >= pAdmin) || (ch.DB == "" && role >= roleAdmin)
+		case "useractive", "userprivs":
+			okc = role >= roleAdmin
+		}
+		if !okc {
+			r.violate(fmt.Sprintf("unauthorized-change/%s/%s-%s", name, roleNames[role], ch.Kind), desc, caseData)
+		}
+	}
+
+	// ---- rule 2: refused sessions are not served
+	if refused && err == nil {
+		mustFail := class != clPublic && class != clOpen && class != clUnknown
+		if class == clOpen && strings.HasPrefix(state, "deactivated") {
+			mustFail = true // the request carries the credentials of the deactivated user
+		}
+		if mustFail {
+			r.noteRefused(stName, name, "served")
+		}
+	}
+
+	// ---- rule 3: by class, valid sessions
+	if !refused && err == nil {
+		if class == clAdmin && role < roleAdmin {
+			r.violate(fmt.Sprintf("unauthorized-admin/%s/%s", name, roleNames[role]), where, caseData)
+		}
+	}
+	if err == nil && sp != nil && sp.explicit && (class == clOpen || !refused) {
+		// the request names a database: succeeding needs the level on THAT database (current permissions)
+		if perm(x.target) < sp.level {
+			r.violate(fmt.Sprintf("unauthorized-%s/%s/%s-on-%s", class, name, roleNames[role], sel), where+" on "+x.target, caseData)
+		}
+	}
+	if err == nil && class != clPublic && class != clFiltered {
+		all := bytes.Join(x.resp, []byte{0})
+		for _, db := range knownDBs {
+			p := perm(db)
+			if refused {
+				p = pNone
+			}
+			if p >= pR {
+				continue
+			}
+			leak := ""
+			if db != sysDBn && bytes.Contains(all, []byte(marker(db))) {
+				leak = "planted marker " + marker(db)
+			} else if h := d0.DBs[db].Hash; len(h) == 32 && d0.DBs[db].TxID > 0 && bytes.Contains(all, []byte(h)) {
+				leak = "current state hash of " + db
+			} else if db == sysDBn && bytes.Contains(all, []byte(vicUser)) {
+				leak = "user record " + vicUser
+			}
+			if leak != "" && refused {
+				r.noteRefused(stName, name, "returned "+leak)
+			} else if leak != "" {
+				r.violate(fmt.Sprintf("unauthorized-read/%s/%s-%s", name, roleNames[role], sel), where+": response carries "+leak, caseData)
+			}
+		}
+	}
+
+	// ---- evidence
+	oc := outcome
+	if len(changes) > 0 {
+		oc += "+state-changed"
+	}
+	fp := fmt.Sprintf("%s|%s|%s|%s|%s", class, roleNames[role], sel, state, oc)
+	if permitted {
+		c.Count("cells_permitted_pass", 1)
+	}
+	if sp != nil && (permitted && err == nil || !permitted && r.valid[mi.Full]) {
+		c.Distinct(fp)
+		c.Count("cells_nontrivial", 1)
+	} else {
+		c.Count("cells_trivial", 1)
+	}
+	if err == nil {
+		c.Count("calls_allowed", 1)
+	} else {
+		c.Count("calls_denied", 1)
+	}
+	if len(changes) > 0 {
+		c.Count("calls_changing_state", 1)
+	}
+	if !permitted && (name == "Set" || name == "DocumentService.InsertDocuments" || name == "ChangePermission") {
+		c.Sample(map[string]any{"method": name, "role": roleNames[role], "selection": sel, "state": state, "setup": steps, "outcome": outcome, "changes": chs})
+	}
+	return err == nil
+}
